@@ -21,7 +21,8 @@ EXTENDS LGraph, Json, IOUtils
 
 Cases == ndJsonDeserialize(IOEnv.CASES)
 
-View(c, sel, k) == CASE sel = "el" -> c.g.el[k] [] sel = "elch" -> c.g.elch[k] [] sel = "topo" -> c.g.topo[k] [] OTHER -> c.g.plain[k]
+View(c, sel, k) == CASE sel = "el" -> c.g.el[k] [] sel = "elch" -> c.g.elch[k] [] sel = "chel" -> c.g.elch[k]
+                        [] sel = "topo" -> c.g.topo[k] [] OTHER -> c.g.plain[k]
 
 QVerdict(c, q) ==
    LET A == View(c, q.sel, q.a)
@@ -49,10 +50,21 @@ QVerdict(c, q) ==
           ELSE IF ~NoDup(q.res) THEN tag \o ":duplicate-embedding"
           ELSE "ok"
 
+SseVerdict(c, q) ==
+   LET A == View(c, q.sel, q.a)
+       B == View(c, q.sel, q.b)
+       tag == "sse(" \o (IF q.flag THEN "pre-filter-on" ELSE "pre-filter-off") \o ")"
+       all == Monos(B, A)
+   IN IF \E k \in DOMAIN q.res : q.res[k] \notin all THEN tag \o ":invalid-embedding"
+      ELSE IF \E k \in DOMAIN c.q : /\ c.q[k].op = "sse" /\ c.q[k].a = q.a /\ c.q[k].b = q.b /\ c.q[k].flag # q.flag
+                                    /\ Range(c.q[k].res) # Range(q.res)
+           THEN tag \o ":pre-filter-changes-the-result-set"
+      ELSE "ok"
+
 RECURSIVE QFrom(_, _)
 QFrom(c, k) ==
    IF k > Len(c.q) THEN "ok"
-   ELSE LET v == QVerdict(c, c.q[k])
+   ELSE LET v == IF c.q[k].op = "sse" THEN SseVerdict(c, c.q[k]) ELSE QVerdict(c, c.q[k])
             rest == QFrom(c, k + 1)
         IN IF v = "ok" THEN rest
            ELSE LET w == "q" \o ToString(k) \o ":" \o v IN IF rest = "ok" THEN w ELSE w \o ";" \o rest
